@@ -160,11 +160,11 @@ func (v *Vue) evalObjectBinding(ctx VueContext, attrName, expr string) string {
 	}
 
 	content := expr[1 : len(expr)-1] // Remove { }
-	pairs := v.parseObjectPairs(ctx, content)
+	pairs, pairValues := v.parseObjectPairs(ctx, content)
 
 	switch attrName {
 	case "class":
-		return v.buildClassString(pairs)
+		return v.buildClassString(pairs, pairValues)
 	case "style":
 		return v.buildStyleString(pairs)
 	}
@@ -180,9 +180,12 @@ func (v *Vue) evalObjectBinding(ctx VueContext, attrName, expr string) string {
 }
 
 // parseObjectPairs parses key:value pairs from an object literal.
-// Returns a slice of resolved values in order.
-func (v *Vue) parseObjectPairs(ctx VueContext, content string) []string {
+// Returns a slice of "key:value" strings in order, and the resolved values
+// themselves (same indices) so that truthiness is decided on the real value
+// rather than on its printed form.
+func (v *Vue) parseObjectPairs(ctx VueContext, content string) ([]string, []any) {
 	var pairs []string
+	var values []any
 
 	// Split by comma, but respect quoted strings
 	items := v.splitObjectItems(content)
@@ -211,15 +214,17 @@ func (v *Vue) parseObjectPairs(ctx VueContext, content string) []string {
 			val, ok = ctx.stack.Resolve(valueExpr)
 			if !ok {
 				pairs = append(pairs, "")
+				values = append(values, nil)
 				continue
 			}
 		}
 
 		// Store both key and resolved value
 		pairs = append(pairs, fmt.Sprintf("%s:%v", key, val))
+		values = append(values, val)
 	}
 
-	return pairs
+	return pairs, values
 }
 
 // splitObjectItems splits comma-separated items in an object, respecting quoted strings.
@@ -262,10 +267,10 @@ func (v *Vue) splitObjectItems(content string) []string {
 
 // buildClassString builds a space-separated class string from key:value pairs.
 // Includes key only if the boolean value is truthy.
-func (v *Vue) buildClassString(pairs []string) string {
+func (v *Vue) buildClassString(pairs []string, values []any) string {
 	var classes []string
 
-	for _, pair := range pairs {
+	for i, pair := range pairs {
 		pair = strings.TrimSpace(pair)
 		if pair == "" {
 			continue
@@ -277,11 +282,9 @@ func (v *Vue) buildClassString(pairs []string) string {
 		}
 
 		key := strings.TrimSpace(pair[:colonIdx])
-		valueStr := strings.TrimSpace(pair[colonIdx+1:])
 
-		// Check if value is truthy using the actual type
-		val := parseValue(valueStr)
-		if helpers.IsTruthy(val) {
+		// Check if value is truthy using the actual (typed) value
+		if i < len(values) && helpers.IsTruthy(values[i]) {
 			classes = append(classes, key)
 		}
 	}
